@@ -72,6 +72,8 @@ Definition set_owner (e : entry) (uid gid : option N) : entry :=
           (e_follow e) (e_files e).
 Definition set_path (e : entry) (p : rpath) : entry :=
   mkEntry p (e_alt e) (e_rel e) (e_dir e) (e_file e) (e_link e) (e_mode e) (e_uid e) (e_gid e) (e_follow e) (e_files e).
+Definition set_alt (e : entry) (a : option rpath) : entry :=
+  mkEntry (e_path e) a (e_rel e) (e_dir e) (e_file e) (e_link e) (e_mode e) (e_uid e) (e_gid e) (e_follow e) (e_files e).
 Definition set_files (e : entry) (fs : option (gset (list N))) : entry :=
   mkEntry (e_path e) (e_alt e) (e_rel e) (e_dir e) (e_file e) (e_link e) (e_mode e) (e_uid e) (e_gid e) (e_follow e) fs.
 
